@@ -205,7 +205,7 @@ pub fn run(tier: Tier) -> i32 {
     run.stage("S2a reduced alphabet squared x scale pairs", json!({"alphabet":st.small.len(),"scale_pairs": if quick { 72 } else { 361 },"n": if quick { "0,18,p-q-1,p-q,p+q-1" } else { "0,1,9,17,18 and p-q+{-1,0,1}, p+q-{1,0}" }}));
 
     // S2b: large x reduced x frame, both orders
-    let s2b: Vec<pairs::Outer> = if quick { st.outers_big().into_iter().enumerate().filter(|(i, _)| i % 6 == 0).map(|(_, o)| o).collect() } else { st.outers_big() };
+    let s2b: Vec<pairs::Outer> = if quick { st.outers_big().into_iter().enumerate().filter(|(i, _)| i % 9 == 0).map(|(_, o)| o).collect() } else { st.outers_big() };
     pairs::run_pairs(&run, &s2b, &ALL_MODES, &|_, _, _, out| out.extend_from_slice(&st.small),
         &|a, _, b, _| st.in_s1(a, b) || st.in_small(a, b), &|a, p, b, q, m, l| {
         for n in nset_lv(p, q, false, quick) {
@@ -216,7 +216,7 @@ pub fn run(tier: Tier) -> i32 {
         quant_case(0, a, p, b, q, 0, m, l);
         quant_case(0, b, q, a, p, 0, m, l);
     });
-    run.stage("S2b large alphabet x reduced alphabet x scale frame, both orders", json!({"large":st.big.len(),"reduced":st.small.len(),"outer_keys":s2b.len(),"thinning": if quick { "every 6th (coefficient, scale pair) key" } else { "none" }}));
+    run.stage("S2b large alphabet x reduced alphabet x scale frame, both orders", json!({"large":st.big.len(),"reduced":st.small.len(),"outer_keys":s2b.len(),"thinning": if quick { "every 9th (coefficient, scale pair) key" } else { "none" }}));
 
     // S3d: div_rounded / quantize rounding frontier over all four branches
     let pairs_s3: &Vec<(u8, u8)> = if tier.thorough() { &st.all } else { &st.frame };
